@@ -16,6 +16,10 @@ fresh instance (Deserialize, OnInit -> RecoverFromCheckPoints) and
       again (same length, same object after another Deserialize);
   (b) the remaining blocks are processed on the restored instance; the final canonical state
       must equal the uninterrupted run's (`C23:dpos-restore-diverges:<field class>`).
+Differences of (b) in PendingCanceledProducers[k].<field> while another producer map of the
+restored instance holds k with the uninterrupted run's value are one mechanism (the check point
+stores two copies of one shared *Producer) and are reported under the single key
+`C23:dpos-restore-diverges:PendingCanceledProducers-alias`, whatever the fields.
 The summary record lists under `never_populated` the check point fields that were zero /
 empty in every snapshot taken (not exercised, so not claimed).
 
